@@ -3,6 +3,7 @@ import GormModel.Model.Heap
 import GormModel.Model.ClauseMap
 import GormModel.Model.SessionWrites
 import GormModel.Model.ArgUse
+import GormModel.Model.PreloadConds
 open Lean
 open Gorm.Heap
 namespace HC06
@@ -121,6 +122,17 @@ def handleC06 (op : String) (args : Array Json) : Option Json := do
   | "c06.argsites" =>
     some (Json.arr (Gorm.Gen.argSites.map (fun s => Json.mkObj [("file", Json.str s.file), ("fn", Json.str s.fn),
       ("writes", strListJ ((Gorm.ArgUse.siteWrites s).map (fun e => e.kind ++ ":" ++ e.what)))])).toArray)
+  | "c06.preconds" =>
+    -- ["c06.preconds", [atoms of Preload's arguments: 0 = scope function], spare capacity, [atoms of the Associations conds]]
+    -- → what the handle's Preloads[name] holds after ONE chain ran its preload, under the regenerated discipline
+    let cell (n : Nat) : Cell := .atom n
+    let a ← natList? (arg args 1)
+    let spare ← jNat? (arg args 2)
+    let assoc ← natList? (arg args 3)
+    let p := Gorm.PreConds.prefixInitOf Gorm.Gen.aliasWrites
+    let r := Gorm.PreConds.argsAfter p (a.map cell) spare (assoc.map cell)
+    let ids := r.1.map (fun c => match c with | .atom n => n | _ => 0)
+    some (Json.mkObj [("after", Json.arr (ids.map natJ).toArray), ("writes", natJ r.2), ("prefixInit", Json.bool p)])
   | "c06.cfg" =>
     some (Json.str (toString (repr genAll)))
   | _ => none
